@@ -436,6 +436,8 @@ impl V {
         match t {
             Term::Lit(_) | Term::Str(_) | Term::Fn { .. } | Term::Ref(..) => false,
             Term::Match(_) | Term::Block(_) | Term::Tail(_) | Term::TailRipple => true,
+            // a hole receives the flowing value like a tuple field
+            Term::Interp(segs) => segs.iter().any(|g| matches!(g, Seg::Hole(_))),
             Term::Access(Src::Ripple, _) | Term::Access(Src::Builtin(_), _) => true,
             Term::Access(Src::Var(x), accs) => match env.lookup(x).and_then(|v| project(&v.ty, accs, x).ok()) {
                 Some(Ty::Fn(p, _)) => !p.is_nil(),
@@ -518,6 +520,19 @@ impl V {
             Term::Lit(Lit::Int(_)) => Ok(Ty::Int),
             Term::Lit(Lit::Bin(_)) => Ok(Ty::Bin),
             Term::Str(_) => Ok(Ty::str_()),
+            Term::Interp(segs) => {
+                // every hole is a block (scope) on the flowing value and must be a `Str`
+                for g in segs {
+                    if let Seg::Hole(e) = g {
+                        let hole = [Term::Block(e.clone())];
+                        let ty = self.term(env, tin, &hole, 0, false, cx)?;
+                        if ty != Ty::str_() {
+                            return Err(format!("string hole of type {} (must be exactly Str)", ty.src()));
+                        }
+                    }
+                }
+                Ok(Ty::str_())
+            }
             Term::Tuple(name, fields) => {
                 let mut ftys: Vec<(Option<String>, Ty)> = vec![];
                 let fs = self.flow.get();
